@@ -10,6 +10,7 @@ import Q1t.Proofs.CQasmTrig
 import Q1t.Proofs.CQasmWFWitness
 import Q1t.Proofs.CQasmComplex
 import Q1t.Proofs.CQasmEquivExample
+import Q1t.Proofs.CQasmEquivDensity
 /-!
 # C12 — the c-QASM export preserves the circuit's semantics or fails
 
@@ -404,8 +405,11 @@ Carrier: the branches of `Spec/Born` (`(unnormalised state, register word)`).  `
 NOT proved: (1) that the parsed program of the exported TEXT is this value-level statement list (needs the exact parse
 results and a number round trip `S.angle (parse (N.disp x)) = x`; `cq_wellformed_partial` gives parsing and
 well-formedness only); (2) [closed: `cq_equiv_partial` below folds the operations] (3) [closed for `CZ Swap CS CT CY CCX CCZ CU1` (exact, `exactAll`) and `V Vdg U1 CU3` (up to a phase,
-`cq_equiv_phase_partial`)]; `Kron` bundles, `Composite`, unconditioned `Loop` closed by `cq_equiv_term_partial`; still open: `CSdg CTdg` (decimal
-literals), conditional gates other than one-line exact ones, `measure_all`.  All of these are checked by (B) on every run. -/
+`cq_equiv_phase_partial`)]; `Kron` bundles, `Composite`, unconditioned `Loop` closed by `cq_equiv_term_partial`;
+conditional terms with one-line leaves closed by `cq_equiv_cond_term_partial`; `measure_all` in Z closed (up to a
+permutation of the branch list; keep-all non-zero test) by `cq_equiv_measure_all_partial`, and the per-word densities by
+`cq_equiv_density_partial`; still open: `CSdg CTdg` (decimal literals), `measure_all` in X / Y (known finding: basis not
+restored).  All of these are checked by (B) on every run. -/
 
 section equiv
 variable {α P : Type} [CommRing α] [Amp α P]
@@ -513,6 +517,67 @@ theorem cq_equiv_term_total (h : LawfulAmp α P) (hh : Proofs.Unitaries.LawfulHa
 
 /-- non-vacuity over ℂ: a loop around a bundle on swapped qubits and a composite, then `V` (phase), then `measure_x` -/
 example := AmpComplex.equiv_example_term
+
+
+/-- **cq_equiv_partial with conditional gate terms**: the class `FaithfulOpC` additionally contains conditional gate
+operations `cond control target g bits` for EVERY term `g` satisfying `condTermOK` — library gates of `exactAll` /
+`phaseGates` (so also the phase gates `V V† U1`) with direct parameters and a ONE-line translation, `Kron` of any two
+such terms, composites and loops with valid sub-placements, in any nesting — on a valid placement, with a non-empty
+control list without repetition in range and a target below `2^len`.  The statements are what the exporter writes: one
+pair of `not` brackets around ALL lines of the term (a `Kron`'s parts one after the other, a `Loop`'s body unrolled),
+every line with the `c-` prefix on the same bits (`condLines`).  This is precisely where the exporter is right on the
+pinned code: a leaf with a multi-line translation has only its first line prefixed (the known finding; excluded by
+`oneLine`). -/
+theorem cq_equiv_cond_term_partial (h : LawfulAmp α P) (hh : Proofs.Unitaries.LawfulHalf α P) (hn : LawfulNegHalf α P)
+    (hq : LawfulQuarter α P) (n : Nat) (hn64 : n ≤ 64) (nz : List α → Bool) (hs : NzScale P nz)
+    (hnz0 : nz ((List.range (2 ^ n)).map fun i => if i = 0 then (1 : α) else 0) = true)
+    (steps : List (XOp P × List (DStmt α) × Sim.COp P)) (hst : ∀ s ∈ steps, FaithfulOpC n nz s.1 s.2.1 s.2.2) :
+    ∃ r2, Spec.branches n nz (steps.map (·.2.2)) (CQ1.initial n) = some r2 ∧
+      List.Forall₂ (PhRel P n nz) (dSeq n nz (steps.flatMap (·.2.1)) (CQ1.initial n)) r2 :=
+  circuit_equiv_cond h hh hn hq n hn64 nz hs hnz0 steps hst
+
+/-- every conditional gate term of the class, on every valid placement and control list, has its statements -/
+theorem cq_equiv_cond_term_total (h : LawfulAmp α P) (hh : Proofs.Unitaries.LawfulHalf α P) (hn : LawfulNegHalf α P)
+    (hq : LawfulQuarter α P) (n : Nat) (nz : List α → Bool) (g : XGate P) (hok : condTermOK g = true)
+    (bits : List Nat) (hl : bits.length = nrBits g) (hv : Spec.validBits n bits = true)
+    (hkept : ∀ term : GateTerm P, NzKept n nz term bits) (control : List Nat) (target : Nat) (hne : control ≠ [])
+    (hnd : control.Nodup) (hcb : ∀ k ∈ control, k < n) (ht : target < 2 ^ control.length) :
+    ∃ D cop, FaithfulOpC n nz (.cond control target g bits) D cop :=
+  faithful_cond h hh hn hq n nz g hok bits hl hv hkept control target hne hnd hcb ht
+
+/-- `measure_all` in Z into the bits `0..n-1` is exported as the one line `measure_all`, and `Spec/CQ1` reads that
+line as the value-level statements `measure q[0]; …; measure q[n-1]` -/
+theorem cq_measure_all_is_value_lines {F : Type} (tbl : List Gen.CQGate) (N : Num F) (S : CQ1.NumSem α P) (n : Nat)
+    (nz : List α → Bool) (br : CQ1.Branch α) :
+    exportOp tbl N n (.measureAll (List.range n) .Z) = .ok ["measure_all".toList] ∧
+    CQ1.instrSem S n nz ⟨[], "measure_all", []⟩ br = some (dSeq n nz (measureAllStmts n) [br]) :=
+  ⟨export_measureAll tbl N n, instrSem_measureAll S n nz br⟩
+
+/-- **cq_equiv_partial with `measure_all`** (class `FaithfulOpM` = `FaithfulOpC` + `measure_all` in Z into the bits
+`0..n-1`, the only layout that the exporter accepts), for the non-zero test that keeps every branch: `Spec/CQ1`
+measures qubit after qubit, `Spec/Born` enumerates the `2^n` outcome words, so the two branch lists differ by a
+PERMUTATION (`seq_perm_born` of the OpenQASM sibling): a permutation of the program's branch list is related branch by
+branch (`PhRel`) to the circuit's. -/
+theorem cq_equiv_measure_all_partial (h : LawfulAmp α P) (hh : Proofs.Unitaries.LawfulHalf α P) (hn : LawfulNegHalf α P)
+    (hq : LawfulQuarter α P) (n : Nat) (hn64 : n ≤ 64) (nz : List α → Bool) (hnz : ∀ φ, nz φ = true)
+    (steps : List (XOp P × List (DStmt α) × Sim.COp P)) (hst : ∀ s ∈ steps, FaithfulOpM n nz s.1 s.2.1 s.2.2) :
+    ∃ r2, Spec.branches n nz (steps.map (·.2.2)) (CQ1.initial n) = some r2 ∧
+      PermRel (PhRel P n nz) (dSeq n nz (steps.flatMap (·.2.1)) (CQ1.initial n)) r2 :=
+  circuit_equiv_measureAll h hh hn hq n hn64 nz hnz steps hst
+
+/-- **cq_equiv_partial, observable form** (the form of the full statement): for the same class, for EVERY register word
+`w`, `density (statements of the export) w = density (Born.branches c) w` — `density` forgets the order of the branches
+and unit factors (`density_perm`, `outer_vsmul`). -/
+theorem cq_equiv_density_partial (h : LawfulAmp α P) (hh : Proofs.Unitaries.LawfulHalf α P) (hn : LawfulNegHalf α P)
+    (hq : LawfulQuarter α P) (n : Nat) (hn64 : n ≤ 64) (nz : List α → Bool) (hnz : ∀ φ, nz φ = true)
+    (steps : List (XOp P × List (DStmt α) × Sim.COp P)) (hst : ∀ s ∈ steps, FaithfulOpM n nz s.1 s.2.1 s.2.2) :
+    ∃ r2, Spec.branches n nz (steps.map (·.2.2)) (CQ1.initial n) = some r2 ∧
+      ∀ w, CQ1.density (P := P) (2 ^ n) (dSeq n nz (steps.flatMap (·.2.1)) (CQ1.initial n)) w =
+        CQ1.density (P := P) (2 ^ n) r2 w :=
+  circuit_equiv_density h hh hn hq n hn64 nz hnz steps hst
+
+/-- non-vacuity over ℂ: `H 0; measure 0; if b[0]=1: loop/bundle/composite on [2,1]; if b[0]=0: V 1; measure_all` -/
+example := AmpComplex.equiv_example_cond_measureAll
 
 
 /-! ### text ↔ values: first pieces (the rest is NOT proved)
